@@ -91,7 +91,11 @@ class MCMC(Identifiable, Runnable):
                 accepted = False
             else:
                 with torch.no_grad():
-                    log_joint_proposed = self.joint()
+                    try:
+                        log_joint_proposed = self.joint()
+                    except ValueError:
+                        # the proposal is outside the support of a distribution
+                        log_joint_proposed = torch.full_like(log_joint, -torch.inf)
                 if torch.isnan(log_joint_proposed) or torch.isinf(log_joint_proposed):
                     log_alpha = torch.tensor(torch.finfo(hastings_ratio.dtype).min)
                     acceptance_prob = torch.zeros_like(hastings_ratio)
